@@ -86,6 +86,27 @@ def valid_files():
     return fs
 
 
+def page_sized(files):
+    """Files whose size is at, just below and just above a multiple of the page size (whatever reads the file in pages, or maps it, has its boundary there):
+    a valid file padded with a comment, blanks or newlines, the same cut short inside the padding, and junk of exactly that size."""
+    out = []
+    base = files[0][1]
+    for size in (4095, 4096, 4097, 8191, 8192, 8193, 12288, 16384, 65536):
+        pad = size - len(base)
+        if pad < 8:
+            continue
+        out.append(base + b'/*' + b'c' * (pad - 5) + b'*/\n')          # valid, comment padding
+        out.append(base + b' ' * (pad - 1) + b'\n')                     # valid, blank padding
+        out.append(base + b'\n' * pad)                                  # valid, newline padding
+        out.append(base + b'//' + b'c' * (pad - 2))                      # valid: ends inside a line comment, no final newline
+        out.append(base + b'/*' + b'c' * (pad - 2))                      # invalid: unterminated block comment
+        out.append(base + b'x "' + b'v' * (pad - 3))                     # invalid: unterminated string
+        out.append(base + b' ' * (pad - 1) + b'{')                       # invalid: stray brace as the very last byte
+        out.append(b'a' * size)                                           # one bare word of exactly that size
+        out.append(b'"' + b'q' * (size - 2) + b'"')                       # one quoted word
+    return out
+
+
 def mutations(data, what):
     out = []
     if what in ('trunc', 'both'):
@@ -151,6 +172,7 @@ def main(tier):
     with C.Pool(b, 16) as pool:
         # long tasks first
         tasks.sort(key=lambda t: -(len(t[2]) ** t[3] // t[5] if t[0] == 'tok' else len(t[2]) * 3))
+        tasks[:0] = [('list', pi, page_sized(files)) for pi in range(len(PRIORS))]      # cheap, and first
         for r in pool.imap(_task, tasks):
             if 'harness_error' in r:
                 raise common.HarnessError(r['harness_error'])
